@@ -289,7 +289,7 @@ class CoopQueue:
 
 
 # ---------------------------------------------------------------------------------------
-def explore(make_run, max_preemptions, cap, seed, extra_random=0):
+def explore(make_run, max_preemptions, cap, seed, extra_random=0, early=False):
     """
     make_run(chooser) -> (result, steps) executes the scenario once under `chooser` and returns the scheduler's steps.
     Enumerates all schedules with <= max_preemptions pre-emptions (DFS over choice prefixes), up to `cap` executions,
@@ -304,7 +304,7 @@ def explore(make_run, max_preemptions, cap, seed, extra_random=0):
         if count >= cap:
             exhaustive = False
             break
-        prefix = stack.pop()
+        prefix = stack.pop(0) if early else stack.pop()      # early: breadth-first, pre-emptions at the earliest steps first
 
         def chooser(i, runnable, current, prefix=prefix):
             if i < len(prefix) and prefix[i] in runnable:
